@@ -274,6 +274,39 @@ func hostileInputs(tier string, r *rng) []hostile {
 			}
 		}
 	}
+	// unprotected RSA secret keys whose private numbers are degenerate (0, 1, 2, equal primes, the modulus itself): whatever
+	// crypto/rsa is asked to check or precompute with them (d mod (p-1) with p = 1 …) must end in an error, not a crash
+	for _, f := range fs {
+		p := f(1700000000)
+		if p.algo != 1 {
+			continue
+		}
+		ids := []pgpIdentity{{name: "S <s@x>", flags: 3, sigCreated: 1700000000, lifetime: -1}}
+		pub := buildPGP(p, ids, nil, false)
+		primLen := len(pgpPacket(6, p.body))
+		small := [][]byte{nil, {1}, {2}, {3}, r.bytes(64)}
+		for _, d := range [][]byte{{1}, r.bytes(128)} {
+			for _, pp := range small {
+				for _, qq := range small {
+					for _, u := range [][]byte{nil, {1}} {
+						secret := append(append(append(pgpMPI(d), pgpMPI(pp)...), pgpMPI(qq)...), pgpMPI(u)...)
+						sec := append(pgpPacket(5, secretKeyPacketBody(p.body, secret)), pub.binary[primLen:]...)
+						add("pgp:secret-rsa-degenerate", "secret.asc", pgpArmor("PGP PRIVATE KEY BLOCK", sec))
+					}
+				}
+			}
+		}
+		break
+	}
+	// text that stops at, inside or right after a PEM / armor marker: every prefix of the two boundary lines, alone and after
+	// other text, and the same around the END marker
+	for _, pre := range []string{"", "the block starts with ", "x\n", "-----BEGIN CERTIFICATE-----\nAAAA\n"} {
+		for _, line := range []string{"-----BEGIN CERTIFICATE-----\n", "-----END CERTIFICATE-----\n", "-----BEGIN PGP PUBLIC KEY BLOCK-----\n\n", "-----BEGIN \n", "-----BEGIN-----END", "-----END -----BEGIN "} {
+			for i := 1; i <= len(line); i++ {
+				add("pem:marker-prefix", "f.pem", []byte(pre+line[:i]))
+			}
+		}
+	}
 	for _, ptLen := range []int{0, 1, 2, 16, 32, 34, 64} { // EdDSA / cv25519 points of the wrong size
 		pt := append([]byte{0x40}, r.bytes(64)...)[:ptLen]
 		var mp []byte
